@@ -49,6 +49,10 @@ pub mod websocket_limits;
 #[cfg(all(feature = "websocket", not(target_arch = "wasm32")))]
 pub mod websocket_server;
 
+#[cfg(feature = "verif-hooks")]
+#[doc(hidden)]
+pub mod verif_hooks;
+
 #[doc(hidden)]
 pub mod derive {
     pub use repe_derive::RepeStruct;
